@@ -158,6 +158,25 @@ fn check_seeded(seed: &[u8], o: &mut Outcome) -> Option<(Vec<u8>, Vec<u8>)> {
             return None;
         }
     }
+    // the same two calls in place: one Buffer struct holds the seed and receives the identity
+    for (name, which, want) in [("seeded_key_gen", 0u8, &exp_pair), ("seeded_extended_key_gen", 1u8, &exp_tuple)] {
+        let got = guarded(|| {
+            let mut io = Buffer::from(seed);
+            let p = &mut io as *mut Buffer;
+            let ok = if which == 0 { rln::ffi::seeded_key_gen(rln as *const RLN, p as *const Buffer, p) } else { rln::ffi::seeded_extended_key_gen(rln as *const RLN, p as *const Buffer, p) };
+            if !ok {
+                return None;
+            }
+            Some(if io.len == 0 { vec![] } else { unsafe { std::slice::from_raw_parts(io.ptr, io.len) }.to_vec() })
+        });
+        match got {
+            Ok(Some(b)) if &b == want => {}
+            other => {
+                vfail!(o, "ffi::{name} called with one Buffer as seed input and output differs from reference (seed len {}): {:?}", seed.len(), other.map(|x| x.map(|b| b.len())));
+                return None;
+            }
+        }
+    }
     o.evals += 6;
     Some((exp_pair, exp_tuple))
 }
